@@ -6,6 +6,7 @@ package c17
 
 import (
 	"bytes"
+	"encoding/binary"
 	"fmt"
 	"math/bits"
 
@@ -578,6 +579,33 @@ func units(tier string) []runner.Unit {
 					if u.Expired() {
 						u.NotExhaustive("budget")
 						break
+					}
+				}
+			}
+			// lengths at the 16-bit boundary: an extracted length whose encoding needs 8192 chunks (65536
+			// bytes) or more cannot be announced by any payload length
+			for _, ex := range []int{32760, 32761, 32764, 32765, 32766, 32767, 32768, 40000, 65535} {
+				for _, pl := range []int{0, 8, 16, 65528} {
+					need := (ex + c - 1) / c * 8
+					if need == pl {
+						continue // a consistent pair (only possible below the boundary)
+					}
+					cnt++
+					wire := append(bytes.Repeat([]byte{0x55}, pl), tag...)
+					if _, err := protocol.VerifLEDecodeWire(wire, 10, mode, half, 0, uint16(pl), uint16(ex)); err == nil {
+						u.Violation("C17/invalid-metadata-accepted", fmt.Sprintf("mode %d: extracted length %d needs %d encoded bytes, yet the receiver accepted it with payload length %d", mode, ex, need, pl), "", "")
+						return
+					}
+					// the metadata parser itself (bytes 22-23 payload length, 25-28 mask, 29-30 extracted length)
+					for _, pt := range []uint8{10, 11} {
+						if meta, err := protocol.VerifLEDataMeta(pt, mode); err == nil {
+							binary.BigEndian.PutUint16(meta[22:], uint16(pl))
+							binary.BigEndian.PutUint16(meta[29:], uint16(ex))
+							if err := protocol.VerifUnmarshalMeta(meta); err == nil {
+								u.Violation("C17/invalid-metadata-accepted", fmt.Sprintf("mode %d: the metadata parser accepted extracted length %d (needs %d encoded bytes) with payload length %d", mode, ex, need, pl), "", "")
+								return
+							}
+						}
 					}
 				}
 			}
